@@ -419,3 +419,21 @@ Theorem C16_v4_straddling_chunk_example :
      = [false; true; true; false; false; false].
 Proof. exact (conj ex_straddle_ok ex_straddle_values). Qed.
 Print Assumptions C16_v4_straddling_chunk_example.
+
+(* d.flags read for the first time by ANY number of threads at once (every select() makes new indexers whose dask graph
+   is built lazily by DaskLazyIndexer.dataset - the site `site_dask` of C20's Model/LazyInit.v, regenerated from
+   katdal/lazy_indexer.py on every run): under EVERY interleaving, at source-line granularity, no reader fails, every
+   reader that has returned holds the graph with the WHOLE transform chain applied - boolean = some bit of the raw byte
+   among the names currently selected - and the graph was built exactly once.  (S = what the raw-flags indexer delivers
+   for a sample, V = what d.flags delivers, f = [bitwise_and unless the mask is all ones; view as bool].) *)
+Theorem C16_v4_flags_under_concurrent_first_reads :
+  forall (h : list (option selarg)) (raw : Z) (schedule : list nat), 0 <= raw < 256 ->
+  let c := KV.Model.LazyInit.exec Z bool (fun r => v4_flag r (hist_mask flag_names h)) KV.Model.LazyInit.site_dask
+                                  (KV.Model.LazyInit.mkSh None (Some raw) 0) schedule in
+  (forall t, KV.Model.LazyInit.c_th c t <> KV.Model.LazyInit.Failed) /\
+  (forall t lo, KV.Model.LazyInit.c_th c t = KV.Model.LazyInit.Done lo ->
+     KV.Model.LazyInit.lres lo = Some (spec_flag_bool raw (spec_hist_mask h))) /\
+  (KV.Model.LazyInit.c_lock c = None -> KV.Model.LazyInit.c_hist c <> [] ->
+   KV.Model.LazyInit.ncomp (KV.Model.LazyInit.c_sh c) = 1%nat).
+Proof. exact flags_first_reads_safe. Qed.
+Print Assumptions C16_v4_flags_under_concurrent_first_reads.
